@@ -50,6 +50,11 @@ def admissible_base(R, v, ty):
             # a hint given TWICE with different values (a sniffed packet to which the caller appended its own): the last one counts,
             # for the impersonator as for every reader of the packet
             opts += R.choice([W.o_mss(R.choice([100, 536, 1460, 9000])), "01" + W.o_ws(R.choice([0, 2, 9, 14])), "0101" + W.o_ts(R.choice([0, 7, 123456]), 0)])
+        if R.random() < 0.12:
+            # a hint option with a WRONG length (a sniffed, damaged packet): Scapy hands its value over as raw bytes - it is no hint, and the
+            # well-formed hints next to it still are
+            bad = R.choice(["0806" + "00000001", "0804" + "0001", "0203" + "05", "0206" + "000005b4", "0304" + "0700", "080c" + "00" * 10])
+            opts = (bad + opts) if R.random() < 0.5 else (opts + bad)
         opts = W.pad4(opts, "01")
         if len(opts) > 80:
             opts = opts[:80]
